@@ -72,6 +72,8 @@ def make_frames(fmt, rng, n):
     frames = []
     for k in range(n):
         d, _ = go.make(fmt, rng, "small")
+        if rng.random() < 0.25:
+            go.relayout(d, rng)  # equal arrays in other memory layouts / read-only
         # unique frame id in the title and in the first coordinate; blank / separator-like titles now and then
         r = rng.random()
         if r < 0.15:
